@@ -214,8 +214,14 @@ class RunningFailure(Observer):
                 continue
             by_app.setdefault(app.application_name, []).append((ns, proc.rules.running_failure_strategy.name,
                                                                 proc in app.get_start_sequenced_processes()))
+        operated = {str(rec['args'][-2]) for rec in sim.oplog
+                    if rec['method'].startswith('supvisors.') and len(rec.get('args', [])) >= 2}
         for app_name, items in by_app.items():
             app = ctx.applications[app_name]
+            if app_name in operated:
+                # the user started / stopped this very application around the loss: the strategy alone is not observable
+                self._probe('application_operated_skipped')
+                continue
             # governing strategy with precedence and promotion
             governing = max((s for _ns, s, _q in items), key=lambda s: PRECEDENCE.get(s, -1))
             if governing not in PRECEDENCE:
